@@ -3,12 +3,13 @@ pub mod c02;
 pub mod c03;
 pub mod c04;
 pub mod c13;
+pub mod c14;
 pub mod common;
 
 use crate::engine::*;
 use crate::sim::scenario::Scenario;
 
-pub const ALL: &[&str] = &["C01", "C02", "C03", "C04", "C13"];
+pub const ALL: &[&str] = &["C01", "C02", "C03", "C04", "C13", "C14"];
 
 pub fn run_prop(ctx: &Ctx) -> Option<PropReport> {
     Some(match ctx.prop {
@@ -17,6 +18,7 @@ pub fn run_prop(ctx: &Ctx) -> Option<PropReport> {
         "C03" => c03::run(ctx),
         "C04" => c04::run(ctx),
         "C13" => c13::run(ctx),
+        "C14" => c14::run(ctx),
         _ => return None,
     })
 }
@@ -29,6 +31,7 @@ pub fn replay(prop: &str, part: &str, case: &serde_json::Value) -> Option<CaseRe
         ("C02", "synctest") | ("C13", _) => c13::replay(part, case)?,
         ("C02", _) => c02::eval(&sc()?),
         ("C03", _) => c03::eval(&sc()?),
+        ("C14", _) => c14::replay(part, case)?,
         ("C04", _) => c04::eval(&sc()?),
         _ => return None,
     })
